@@ -5,8 +5,8 @@ from props.engine_common import ENGINE_FUNCS, CORE_ONLY
 LEVEL = "proof"
 LEVEL_TEXT = ("no-raise and termination obligations (safe/*, dec/*, pre/*) of the engine (under DecoderOK), of Node.flatten, and of the decoders under "
               "contract are discharged for all inputs: every raising primitive (index, unpack, int(), bytes(), unhexlify, decode) is either shown "
-              "unreachable from the language of the real pattern or covered by a handler, every loop has a variant; the remaining decoders and "
-              "scan() as a whole are covered by a labelled bounded stand-in")
+              "unreachable from the language of the real pattern or covered by a handler, every loop has a variant; every decoder the default registry ships is among them, and the DecoderOK clause "
+              "`end <= len(data)` on which the engine's termination rests is discharged here too; scan() as a whole and the library code under assumed contracts are covered by a labelled bounded stand-in")
 LEVEL_NOTE = NOT_UNDER_CONTRACT + "; assumed raise-sets of library calls (binascii, int, codecs, regex) are listed in the evidence; A-rec"
 DESIGN_REF = "DESIGN.md 6 (C01)"
 FUNCTIONS = ENGINE_FUNCS + ["multidecoder.node.Node.flatten", "multidecoder.xor_helper.apply_xor_key", "multidecoder.decoders.shell.find_cmd_strings", "multidecoder.decoders.shell.find_powershell_strings"] + SIMPLE_DECODERS + SHELL_FUNCS
